@@ -22,7 +22,8 @@ TECHNIQUE = ('property-based testing (Hypothesis): model-based comparison of '
              'uninstall symmetry')
 RULE = ('Installables: executables, shared / static / versioned shared '
         'libraries with run-time dependency chains, header files, a header '
-        'directory with include pattern and sub-directories, a man page, a '
+        'directory with include pattern and sub-directories, man pages '
+        '(plain and compressed, from sub-directories), a '
         'data file, a generated .pc file; optional directory= arguments; all '
         'combinations of --prefix/--exec-prefix/--bindir/--libdir/'
         '--includedir/--datadir/--mandir (paths with spaces); DESTDIR with '
@@ -60,11 +61,11 @@ def cases(draw):
     dest_when = 'install' if backend == 'make' and draw(st.booleans()) \
         else 'configure'
     items = draw(st.lists(st.sampled_from(
-        ['prog', 'prog2', 'sa', 'sb', 'st', 'sv', 'hdr', 'hdrdir', 'man',
+        ['prog', 'prog2', 'sa', 'sb', 'st', 'sv', 'hdr', 'hdrdir', 'man', 'manz',
          'data', 'pc']), min_size=1, max_size=7, unique=True))
     opts = {}
     for it in items:
-        if it in ('prog', 'sa', 'st', 'hdr', 'hdrdir', 'man') and \
+        if it in ('prog', 'sa', 'st', 'hdr', 'hdrdir', 'man', 'manz') and \
                 draw(st.integers(0, 3)) == 0:
             opts[it] = draw(st.sampled_from(['sub', 'a/b', 'x y']))
     return {'backend': backend, 'dirs': dirs, 'destdir': destdir,
@@ -88,6 +89,7 @@ prog2 = executable('tools/prog2', ['prog2.c'], libs=[sa])
 hdr = header_file('api.h')
 hdrdir = header_directory('include', include='**/*.h')
 man = man_page('doc/prog.1', compress=False)
+manz = man_page('doc/sub/tool.1')
 data = generic_file('data/blob.bin')
 """
 
@@ -117,6 +119,8 @@ def render(case, src):
     sandbox.write_file(os.path.join(src, 'include', 'sub', 'b.h'), '/* b */\n')
     sandbox.write_file(os.path.join(src, 'include', 'skip.txt'), 'no\n')
     sandbox.write_file(os.path.join(src, 'doc', 'prog.1'), '.TH PROG 1\n')
+    sandbox.write_file(os.path.join(src, 'doc', 'sub', 'tool.1'),
+                       '.TH TOOL 1\n')
     sandbox.write_file(os.path.join(src, 'data', 'blob.bin'), 'blob\n')
     L = [SCRIPT_HEAD.format(prog_libs=', '.join(case['prog_libs']))]
     for it in case['items']:
@@ -215,6 +219,9 @@ def expected_tree(case, idirs):
             put('includedir', sub, 'sub/b.h', ('f', 0o644))
         elif it == 'man':
             put('mandir', sub, 'man1/prog.1', ('f', 0o644))
+        elif it == 'manz':
+            # compressed by default (gzip is present): <mandir>/man1/<name>.gz
+            put('mandir', sub, 'man1/tool.1.gz', ('f', 0o644))
         elif it == 'data':
             put('datadir', 'c15', 'blob.bin', ('f', 0o644))
         elif it == 'pc':
